@@ -45,8 +45,63 @@ class Ctx:
     def guards(self, fn, kinds=ALL_KINDS, kill=True):
         key = (fn.qual, kinds, kill)
         if key not in self._guards:
-            self._guards[key] = Guards(self.cfg(fn), fn.params + fn.kwonly, kinds, kill)
+            sw = (lambda call, _fn=fn: self._self_call_writes(_fn, call))
+            self._guards[key] = Guards(self.cfg(fn), fn.params + fn.kwonly, kinds, kill, self_writes=sw)
         return self._guards[key]
+
+    # self-attribute write summaries (used to decide whether self.m() may change a guard)
+    def self_writes(self, fn, _stack=()):
+        """Attributes of `self` that fn (or anything it calls on self) may store to or mutate.
+        '*' = unknown (unresolved self-call)."""
+        if not hasattr(self, "_sw"):
+            self._sw = {}
+        if fn.qual in self._sw:
+            return self._sw[fn.qual]
+        if fn.qual in _stack:
+            return set()
+        MUT = {"append", "extend", "insert", "remove", "pop", "clear", "add", "discard", "update",
+               "difference_update", "intersection_update", "setdefault", "popitem", "sort", "reverse"}
+        out = set()
+        me = fn.params[0] if fn.params and fn.kind in ("method", "property", "setter", "classmethod") else None
+        if me is None:
+            self._sw[fn.qual] = out
+            return out
+        for n in iter_own(fn.node):
+            if isinstance(n, (ast.Attribute, ast.Subscript)) and isinstance(n.ctx, (ast.Store, ast.Del)):
+                d = dotted(n.value if isinstance(n, ast.Subscript) else n)
+                if d and d.split(".")[0] == me and "." in d:
+                    out.add(d.split(".")[1])
+            if isinstance(n, ast.Call) and isinstance(n.func, ast.Attribute):
+                d = dotted(n.func.value)
+                if d and d.split(".")[0] == me:
+                    if "." in d and n.func.attr in MUT:
+                        out.add(d.split(".")[1])
+                    elif "." in d and not _pure_name(n.func.attr):
+                        out.add(d.split(".")[1])  # self.x.m(): x's state may change
+                    elif d == me:
+                        site = self.cg.site_of(fn, n)
+                        if site is None or not site.targets():
+                            if not _pure_name(n.func.attr):
+                                out.add("*")
+                        else:
+                            for q in site.targets():
+                                f2 = self.ix.functions.get(q)
+                                if f2 is not None:
+                                    out |= self.self_writes(f2, _stack + (fn.qual,))
+        self._sw[fn.qual] = out
+        return out
+
+    def _self_call_writes(self, fn, call):
+        site = self.cg.site_of(fn, call)
+        if site is None or not site.targets() or site.how == "cha":
+            return None
+        out = set()
+        for q in site.targets():
+            f2 = self.ix.functions.get(q)
+            if f2 is None:
+                return None
+            out |= self.self_writes(f2)
+        return out
 
     def rd(self, fn):
         return self.guards(fn).rd
@@ -385,6 +440,12 @@ class Ctx:
 
     def src(self, node):
         return unparse(node)
+
+
+def _pure_name(name):
+    from .guards import PURE_METHODS, PURE_PREFIXES
+
+    return name in PURE_METHODS or name.startswith(PURE_PREFIXES)
 
 
 def _is_self_attr(e, fn, attr):
